@@ -146,6 +146,34 @@ def obligations(tier):
                 dict(order=N, mode=mode, entry="class wrapper"), "exact reconstruction at sufficient rank", assumptions=pre)
             add("_tr_svd:tensor_ring", f"N={N},mode={mode}", setup, call, lambda S, I, r: ([("tr_to_tensor(TR-SVD(X)) ≡ X when every truncated SVD is exact", SP.tr_to_tensor(S, r), I["X"])] if S.name == "sym" else []),
                 dict(order=N, mode=mode), "exact reconstruction at sufficient rank", assumptions=pre)
+    # ---- integer-valued data stored with an integer dtype (the quantifier lists it): the factors and cores come out of the SVD in floating point and must stay
+    #      so - a cast back into the input's integer context truncates orthonormal vectors to 0 / +-1 and destroys exactness.  Decided on dtype tags (every
+    #      primitive asks numpy for its result dtype; SVD contract: vectors and values are float64 for integer input), for all sizes and ranks.
+    import tensorly.decomposition._tucker as _tk
+    for N in (3,):
+        def int_setup(S, N=N):
+            n = dims(N)
+            return dict(_S=S, X=S.input("X", n, "int64"), n=n)
+        def int_call(I, N=N):
+            S = I["_S"]
+            Rq = atom("R")
+            sym = S.name == "sym"
+            out = {}
+            with stubbed(_tt, svd_interface=make_svd_stub(S, None)):
+                out["tensor_train"] = [str(f.dtype) for f in _tt.tensor_train(I["X"], [1] + [Rq] * (N - 1) + [1] if sym else [1] * (N + 1)).factors]
+            for mode in range(N):
+                with stubbed(_trs, svd_interface=make_svd_stub(S, None)):
+                    out[f"tensor_ring, mode {mode}"] = [str(f.dtype) for f in _trs.tensor_ring(I["X"], [Rq] * (N + 1) if sym else [1] * (N + 1), mode=mode).factors]
+            for budget in (0, 1):
+                with stubbed(_tk, svd_interface=make_svd_stub(S, None)):
+                    t = _tk.tucker(I["X"], [Rq] * N if sym else [1] * N, n_iter_max=budget, tol=0)
+                out[f"tucker, budget {budget}"] = [str(t.core.dtype)] + [str(f.dtype) for f in t.factors]
+            return out
+        def int_post(S, I, r):
+            return [(f"{k}: every returned array is floating point", v, ["float64"] * len(v)) for k, v in r.items()]
+        add("_tt:tensor_train+_tr_svd:tensor_ring+_tucker:tucker", f"N={N},int64 data", int_setup, int_call, int_post, dict(order=N, dtype="int64"),
+            "integer-dtype input: cores and factors stay floating point",
+            assumptions=lambda I: [atom("R") <= x for x in I["n"]] + [atom("R") * atom("R") <= x for x in I["n"]])
     # ---- bounded stand-in for the numeric bounds and for Tucker exactness
     def bounded():
         from tensorly.decomposition import tucker, tensor_train
